@@ -199,11 +199,39 @@ def known_findings(pid):
     return out
 
 
+_ERR_TOK = re.compile(r"^E(\d+|N)$")
+
+
+def _cut_at_follower_error(case, line):
+    """Terminals that FOLLOW getters: a `Terminal::update` asks its two followed getters one after the other and a device / wrapper
+    update visits its terminals one after the other, each step ending the update at the first error.  No property fixes these ORDERS
+    (C15 speaks about one settable and its one getter), so what has or has not been forwarded when an update returns an error — and which
+    of several errors it is — is not pinned: such a line is compared up to and including THAT an error was returned."""
+    t = case.split(" ")
+    if t[0] == "dv" and any(x.startswith(("fs:", "fc:")) for x in t):
+        out = []
+        for tok in line.split(" "):
+            if _ERR_TOK.match(tok):
+                out.append("ERR"); break
+            out.append(tok)
+        return " ".join(out)
+    if t[0] == "wr" and ("tfs" in t or "tfc" in t):
+        out = []
+        for tok in line.split(" "):
+            if ";" in tok and _ERR_TOK.match(tok.split(";")[0]):
+                out.append("ERR"); break
+            out.append(tok)
+        return " ".join(out)
+    return line
+
+
 def own_observables(case, line):
     """Observables no property pins down are removed before anything is compared.  Group `ss` prints `<update() return>/<get()>` per
     event: what a stream's own `update()` RETURNS is not constrained by any property (C05/C04/C10-C12 speak about `get()`; only the
     Settable-following clause of C15 and the wrappers of C20 speak about propagated errors, and they are observed in groups se / wr),
     so only the get() part is kept (`lr=…` tokens, the last request of C11/C15, are kept whole)."""
+    if case.startswith(("dv ", "wr ")):
+        return _cut_at_follower_error(case, line)
     if not case.startswith("ss "):
         return line
     out = []
@@ -420,7 +448,7 @@ def main():
             if pre is not None:
                 v, detail = pre
             else:
-                vs = variants.get(k, [])
+                vs = [own_observables(c, x) for x in variants.get(k, [])]
                 if "project" in P:      # compare only the observables this property owns
                     a, b = P["project"](c, a), P["project"](c, b)
                     vs = [P["project"](c, x) for x in vs]
